@@ -124,7 +124,7 @@ class Report:
         self.transitions = 0       # real method executions on deep copies
         self.max_depth = 0         # eccentricity of the initial states reached
         self.fixpoint = False      # queue ran empty, nothing was cut
-        self.cut = None            # 'max_states' | 'max_depth' | None
+        self.cut = None            # 'max_states' | 'max_depth' | 'copy-not-independent' | None
         self.merged = 0            # transitions into an already known state
         self.self_loops = 0        # transitions that did not change the key
         self.boundary = 0          # transitions whose successor was not followed
@@ -244,6 +244,10 @@ def search(initial, key, operations, apply, invariant,
                 report('copy-not-independent',
                        'operation %r on a deep copy changed the original object'
                        % (op,), 'transition', k, op)
+                # states share structure: nothing found from here on could be
+                # trusted, the search stops
+                rep.cut = 'copy-not-independent'
+                queue.clear()
                 break
             if step.problems:
                 rep.bad_transitions += 1
@@ -277,6 +281,8 @@ def search(initial, key, operations, apply, invariant,
             report('copy-not-independent',
                    'operation %r on a deep copy changed the original object'
                    % (culprit,), 'transition', k, culprit)
+            rep.cut = 'copy-not-independent'
+            queue.clear()
 
     rep.fixpoint = rep.cut is None
     return rep
